@@ -10,6 +10,10 @@ CHECKS = {
              design="5/C17", technique="Coq proof (lia/nia over Z bit-operation bridge lemmas) + translated-definition tie + differential correspondence"),
 }
 NOT_APPLICABLE = {}
+# per-property entries may also live in tools/manifest.d/Cxx.json ({text, note, design, technique})
+import glob
+for _f in sorted(glob.glob(os.path.join(ROOT, 'tools', 'manifest.d', 'C*.json'))):
+    CHECKS[os.path.basename(_f)[:-5]] = json.load(open(_f))
 ALL = ['C%02d' % i for i in range(1, 21)]
 
 
